@@ -201,8 +201,8 @@ Lemma aux_of_nonneg l on : 0 <= lc_pwr_aux_offset l -> 0 <= lc_pwr_aux_traction_
 Proof. intros H1 H2. unfold aux_of. destruct on; [|lra].
   pose proof (Rabs_pos (ls_pwr_out (lc_state l))). nra. Qed.
 
-Theorem loco_step_spec (l l' : Loco (F:=R)) pwr dt on :
-  loco_sim_solve_step l pwr dt on = Ok l' ->
+(* what one locomotive step (publish limits for this step, then solve) establishes *)
+Definition loco_step_rel (l l' : Loco (F:=R)) (pwr dt : R) (on : bool) : Prop :=
   lc_pwr_aux_offset l' = lc_pwr_aux_offset l /\
   lc_pwr_aux_traction_coeff l' = lc_pwr_aux_traction_coeff l /\
   lc_assert_limits l' = lc_assert_limits l /\
@@ -216,17 +216,22 @@ Theorem loco_step_spec (l l' : Loco (F:=R)) pwr dt on :
   | PBel b0, PBel b' => bel_step_spec b0 b' pwr dt (aux_of l on)
   | _, _ => False
   end.
+
+(* the two stages as the consist drives them: set_pwr_aux + set_cur_pwr_max_out, then solve *)
+Definition loco_pre_step (l : Loco (F:=R)) (dt : R) (on : bool) : res (Loco (F:=R)) :=
+  loco_set_cur_pwr_max_out (loco_set_pwr_aux l on) dt.
+
+Theorem loco_two_stage_spec (l l1 l' : Loco (F:=R)) pwr dt on :
+  loco_pre_step l dt on = Ok l1 -> loco_solve l1 pwr dt on = Ok l' -> loco_step_rel l l' pwr dt on.
 Proof.
-  unfold loco_sim_solve_step. intros H.
-  apply bind_ok in H. destruct H as (l1 & Hlim & H).
-  apply bind_ok in H. destruct H as (l2 & Hsol & H). ens H. inversion H; subst l'; clear H E.
+  unfold loco_pre_step, loco_step_rel. intros Hlim Hsol.
   unfold loco_set_cur_pwr_max_out in Hlim.
   apply bind_ok in Hlim. destruct Hlim as (t1 & Ht1 & Hlim).
   apply bind_ok in Hlim. destruct Hlim as (u & Hassert & Hlim). inversion Hlim; subst l1; clear Hlim.
   unfold loco_solve in Hsol.
   cbn [lc_state lc_type loco_with lc_assert_limits lc_pwr_aux_offset
     lc_pwr_aux_traction_coeff loco_set_pwr_aux ls_pwr_aux ls_energy_aux ls_energy_out ls_pwr_out ls_i] in *.
-  apply bind_ok in Hsol. destruct Hsol as (t2 & Ht2 & Hsol). inversion Hsol; subst l2; clear Hsol.
+  apply bind_ok in Hsol. destruct Hsol as (t2 & Ht2 & Hsol). inversion Hsol; subst l'; clear Hsol.
   cbn [lc_state lc_type loco_with lc_assert_limits lc_pwr_aux_offset loco_edrv
     lc_pwr_aux_traction_coeff ls_pwr_aux ls_energy_aux ls_energy_out ls_pwr_out ls_i]. numR.
   fold (aux_of l on) in *.
@@ -246,4 +251,22 @@ Proof.
     apply bel_limits_spec in Hb1. destruct Hb1 as (Hp & Hc & Hr).
     apply bel_solve_spec in Hb2. destruct Hb2 as (e & r & ee & er & He & Hee & Hr' & Her & Hb').
     econstructor; eauto.
+Qed.
+
+Theorem loco_step_spec (l l' : Loco (F:=R)) pwr dt on :
+  loco_sim_solve_step l pwr dt on = Ok l' -> loco_step_rel l l' pwr dt on.
+Proof.
+  unfold loco_sim_solve_step. intros H.
+  apply bind_ok in H. destruct H as (l1 & Hlim & H).
+  apply bind_ok in H. destruct H as (l2 & Hsol & H). ens H. inversion H; subst l'; clear H E.
+  eapply loco_two_stage_spec; eauto.
+Qed.
+
+(* the simulation additionally checks that the delivered power is the trace power *)
+Lemma loco_step_delivers (l l' : Loco (F:=R)) pwr dt on :
+  loco_sim_solve_step l pwr dt on = Ok l' -> almost_eq pwr (ls_pwr_out (lc_state l')) eps8 = true.
+Proof.
+  unfold loco_sim_solve_step. intros H.
+  apply bind_ok in H. destruct H as (l1 & Hlim & H).
+  apply bind_ok in H. destruct H as (l2 & Hsol & H). ens H. inversion H; subst l'; exact E.
 Qed.
